@@ -9,7 +9,12 @@ cd /repo || exit 2
 if [ -n "$(git status --porcelain --untracked-files=no)" ]; then echo "/repo working tree not clean"; exit 2; fi
 git apply "$D/patch.diff" 2>/dev/null || patch -p1 -F3 -s < "$D/patch.diff" || { echo "PATCH DOES NOT APPLY"; git checkout -- .; exit 2; }
 cd /verif
+# the evidence file of the property describes the unchanged tree: keep it, and keep the
+# replays of this run apart from those of real runs
+cp "evidence/$PROP.json" "/var/tmp/run_seed_evidence_$PROP.json" 2>/dev/null
 OUT=$(./check "$PROP" "$TIER" 2>&1); RC=$?
+cp "/var/tmp/run_seed_evidence_$PROP.json" "evidence/$PROP.json" 2>/dev/null
+mkdir -p "/var/tmp/seed_replays/$NAME" && mv replays/"$PROP"-*.json "/var/tmp/seed_replays/$NAME/" 2>/dev/null
 cd /repo && git checkout -- . && git clean -fdq -- rumqttc/src rumqttd/src 2>/dev/null
 {
 echo "== $(date -u +%FT%TZ) seed=$NAME property=$PROP tier=$TIER exit=$RC (repo HEAD $(git rev-parse --short HEAD))"
